@@ -46,7 +46,13 @@ func VerifC14_DataPathConverges() {
 	p := c15Primary(sm)
 	re, err := engine.NewEngineFacade(vsym.Dir() + "/replica")
 	vsym.Assert(err == nil, "replica engine open failed")
-	rep, err := NewReplica(0, NewEngineApplier(re), DefaultReplicaConfig())
+	// the replica's own tuning must not decide whether it converges: "maximum batch size to process at once" at its
+	// default or far below what the primary puts into one message
+	rcfg := DefaultReplicaConfig()
+	if vsym.IntRange("replicaBatchLimit", 0, 1) == 1 {
+		rcfg.MaxBatchSize = 16
+	}
+	rep, err := NewReplica(0, NewEngineApplier(re), rcfg)
 	vsym.Assert(err == nil, "NewReplica failed")
 	stream := &fakeStream{}
 	session := c15Session("r1", stream)
